@@ -3,7 +3,7 @@
 //! Serves C04 (accumulation) and C12 (state operations).
 
 use crate::events::{Acc, Case, Ev};
-use crate::posit_ref::{posit_units, product_units, round_exact, QT};
+use crate::posit_ref::{fields, posit_units, product_units, round_exact, QT};
 use crate::prng::Fnv;
 use crate::stats::{Pr, Stats};
 use crate::sut::{Img, Sp, Sut};
@@ -666,6 +666,20 @@ impl<'a, S: Sut> Runner<'a, S> {
                         self.poisoned = true;
                         self.r = Wide::ZERO;
                     } else {
+                        for (x, y) in acc.sp.terms(&acc.ops) {
+                            if let (Some((nx, rx, ex)), Some((ny, ry, ey))) = (fields(qt, x), fields(qt, y.unwrap_or(qt.one()))) {
+                                let c = (qt as u32) << 28
+                                    | (acc.sub as u32) << 27
+                                    | (y.is_none() as u32) << 26
+                                    | (nx as u32) << 25
+                                    | (ny as u32) << 24
+                                    | rx << 17
+                                    | ry << 10
+                                    | ex << 4
+                                    | ey;
+                                self.st.prod_classes.insert(c);
+                            }
+                        }
                         for t in acc_terms(qt, acc).into_iter().flatten() {
                             let before = self.r;
                             self.r = self.r.add(&t);
